@@ -12,6 +12,9 @@ package main
 //                                   obs: <frame|E:class>|<msg' pos=<n>|E:class|->
 //   D <pver> <ebs> <cmd> <hex>      hostile payload: Bsvdecode of arbitrary bytes on makeEmptyMessage(cmd)
 //                                   obs: OK <msg> rem=<n> re=<same|bytes|E:class> big=<b> | E:class big=<b> | OPAQUE big=<b>
+//   S <pver> <ebs> <net> <hex>;<hex>;..  several frames on ONE reader (the chunks are concatenated), ReadMessage
+//                                   called until the reader is empty; obs: <verdict>@<reader position>;... with
+//                                   verdict = OK <msg> | OK opaque:<cmd> | E:class
 //   R <pver> <ebs> <net> <hex>      hostile stream: ReadMessageWithEncodingN on arbitrary bytes
 //                                   obs: OK <msg> pos=<n> re=<same|bytes|E:class> big=<b> | E:class pos=<n> big=<b>
 // ebs = the excessive block size given to wire.SetLimits (cmd/main.go uses config.ExcessiveBlockSize).
@@ -409,10 +412,52 @@ func (r *c14run) runCase(input, class string) error {
 			return nil
 		}
 		r.emit(input, obs+" big="+big, class)
+	case "S":
+		// several frames on ONE reader: ReadMessage is called until the reader is empty (at most 16 calls)
+		if len(f) != 5 {
+			return bad
+		}
+		net, e3 := c14Atou32(f[3])
+		stream, err := hex.DecodeString(strings.ReplaceAll(f[4], ";", ""))
+		if e3 != nil || err != nil {
+			return bad
+		}
+		r.inflight(input)
+		var res []string
+		_, st := c14Guard(func() {
+			rd := bytes.NewReader(stream)
+			for calls := 0; calls < 16 && rd.Len() > 0; calls++ {
+				v := c14ReadOne(rd, stream[len(stream)-rd.Len():], pver, net)
+				res = append(res, fmt.Sprintf("%s@%d", v, len(stream)-rd.Len()))
+			}
+		})
+		obs := strings.Join(res, ";")
+		if st != "" {
+			obs = st
+		}
+		r.emit(input, obs, class)
 	default:
 		return bad
 	}
 	return nil
+}
+
+// c14ReadOne: one ReadMessage on rd, whose unread bytes are rest; the verdict without position:
+// "OK <msg>" | "OK opaque:<cmd>" | "E:class"
+func c14ReadOne(rd *bytes.Reader, rest []byte, pver, net uint32) string {
+	hcmd, hlen := "", uint32(0)
+	if len(rest) >= 24 {
+		hcmd = string(bytes.TrimRight(rest[4:16], "\x00"))
+		hlen = binary.LittleEndian.Uint32(rest[16:20])
+	}
+	n, m2, _, err := wire.ReadMessageWithEncodingN(rd, pver, wire.BitcoinNet(net), wire.BaseEncoding)
+	if c14Opaque[hcmd] && (err == nil || (n == 24+int(hlen) && !c14FrameLevel[c14ErrClass(err)])) {
+		return "OK opaque:" + hcmd
+	}
+	if err != nil {
+		return c14ErrClass(err)
+	}
+	return "OK " + c14Summarize(m2)
 }
 
 // c14FrameTrip: WriteMessage + ReadMessage of one message, the observable of an "F" case (no allocation guard,
@@ -663,6 +708,10 @@ func runC14(c *Ctx) error {
 	r.concurrent(g, prod)
 	// 4. hostile payloads and streams
 	if err := r.hostile(g, run); err != nil {
+		return err
+	}
+	// 5. multi-frame streams on one reader
+	if err := r.streams(g, run); err != nil {
 		return err
 	}
 	_ = os.Remove(filepath.Join(c.Out, "c14_inflight.txt"))
